@@ -90,6 +90,14 @@ func (e *Enc) cellEnv(f *frame, pos token.Pos, st *State) *Env {
 		scope = pkg.Scope().Innermost(pos)
 	}
 	env.resolve = func(name string) (TV, bool) {
+		// "let" names of the function's contract expand in place (current state)
+		if f.con != nil {
+			for _, l := range f.con.Lets {
+				if l.Label == name {
+					return e.eval(env, l.Expr), true
+				}
+			}
+		}
 		var a *ssa.Alloc
 		if scope != nil {
 			if _, obj := scope.LookupParent(name, pos); obj != nil && obj.Pos().IsValid() {
@@ -231,6 +239,12 @@ func (e *Enc) enterLoop(f *frame, li *loopInfo, order []*ssa.BasicBlock) {
 		e.bumpAlloc()
 	}
 	if lc != nil {
+		// head snapshots are rewritten in every iteration: arbitrary here, like
+		// everything else the body writes (invariants may constrain them: at the
+		// head they still describe the previous iteration)
+		for _, g := range lc.Heads {
+			e.setVar("G|"+g.Var, e.freshT("lp_"+g.Var, SBV64))
+		}
 		env := e.cellEnv(f, li.pos, e.cur)
 		for _, inv := range lc.Invariants {
 			e.assume(e.evalBool(env, inv))
@@ -240,6 +254,19 @@ func (e *Enc) enterLoop(f *frame, li *loopInfo, order []*ssa.BasicBlock) {
 			m := e.asInt(env, e.evalClauseVal(env, *lc.Decreases))
 			li.measure = e.def("measure", m)
 			li.hasMeas = true
+		}
+		// ghost snapshots of the state at the head of the iteration
+		// (prev_<v> keeps the previous iteration's snapshot: it is what code
+		// after a loop that exits at its head can still refer to)
+		var vals []T
+		for _, g := range lc.Heads {
+			tv := e.evalClauseVal(env, g.Clause)
+			v, _ := e.materialize(env, tv, types.Typ[types.Uint64])
+			vals = append(vals, e.scalar(v, SBV64))
+		}
+		for i, g := range lc.Heads {
+			e.setVar("G|prev_"+g.Var, e.getVar(e.cur, "G|"+g.Var, SBV64))
+			e.setVar("G|"+g.Var, vals[i])
 		}
 		if e.dry == 0 {
 			e.cover(label+".cover.body", tTrue)
@@ -283,6 +310,14 @@ func (e *Enc) backEdge(f *frame, li *loopInfo, from *ssa.BasicBlock) {
 		if len(e.obls) > n0 {
 			e.obls[n0].Env = env
 			e.obls[n0].ClauseText = inv.Text
+		}
+	}
+	for _, st := range lc.Steps {
+		n0 := len(e.obls)
+		e.oblige("loop", label+".step."+st.Label+suffix, e.evalBool(env, st), li.pos)
+		if len(e.obls) > n0 {
+			e.obls[n0].Env = env
+			e.obls[n0].ClauseText = st.Text
 		}
 	}
 	if lc.Decreases != nil && li.hasMeas {
